@@ -369,44 +369,52 @@ type bCmd struct {
 	name    string
 	args    func(run int) []string
 	needDot bool // must show a `go list ... ./...` (loadPackagesWithDeps on a directory)
+	noHome  bool // the ambient environment has neither HOME nor XDG_CACHE_HOME (a service unit, `env -i`): GOCACHE is the only way the go command finds its cache
 }
 
 var bCmds = []bCmd{
-	{"check-file", func(int) []string { return []string{"check", "--no-sandbox", "mod/main.go"} }, false},
-	{"diff", func(int) []string { return []string{"diff", "--no-sandbox", "mod/main.go", "modb/main.go"} }, false},
+	{"check-file", func(int) []string { return []string{"check", "--no-sandbox", "mod/main.go"} }, false, false},
+	{"diff", func(int) []string { return []string{"diff", "--no-sandbox", "mod/main.go", "modb/main.go"} }, false, false},
 	{"scan-deps-dir", func(int) []string {
 		return []string{"scan", "--no-sandbox", "--deps", "--db", "sigs.json", "mod"}
-	}, true},
+	}, true, false},
 	{"scan-deps-transitive-file", func(int) []string {
 		return []string{"scan", "--no-sandbox", "--deps", "--deps-depth", "transitive", "--db", "sigs.json", "mod/main.go"}
-	}, false},
-	{"worker-check", func(int) []string { return []string{"internal-worker", "check", "--target", "mod/main.go"} }, false},
+	}, false, false},
+	{"worker-check", func(int) []string { return []string{"internal-worker", "check", "--target", "mod/main.go"} }, false, false},
 	{"worker-scan-deps-dir", func(int) []string {
 		return []string{"internal-worker", "scan", "--deps", "--deps-depth", "transitive", "--db", "sigs.json", "--target", "mod"}
-	}, true},
+	}, true, false},
 	// a target that carries a vendor tree (vendor/modules.txt): the loader must still resolve
 	// the read-only module mode, whatever the untrusted target ships
 	{"scan-deps-vendored-dir", func(int) []string {
 		return []string{"scan", "--no-sandbox", "--deps", "--db", "sigs.json", "modv"}
-	}, true},
+	}, true, false},
 	{"scan-deps-vendored-file", func(int) []string {
 		return []string{"scan", "--no-sandbox", "--deps", "--deps-depth", "transitive", "--db", "sigs.json", "modv/main.go"}
-	}, false},
-	{"check-dir-strict", func(int) []string { return []string{"check", "--no-sandbox", "--strict", "mod"} }, false},
-	{"scan-file", func(int) []string { return []string{"scan", "--no-sandbox", "--db", "sigs.json", "mod/main.go"} }, false},
-	{"worker-diff", func(int) []string { return []string{"internal-worker", "diff", "mod/main.go", "modb/main.go"} }, false},
+	}, false, false},
+	{"check-dir-strict", func(int) []string { return []string{"check", "--no-sandbox", "--strict", "mod"} }, false, false},
+	{"scan-file", func(int) []string { return []string{"scan", "--no-sandbox", "--db", "sigs.json", "mod/main.go"} }, false, false},
+	{"worker-diff", func(int) []string { return []string{"internal-worker", "diff", "mod/main.go", "modb/main.go"} }, false, false},
 	// targets whose module the hardened go command refuses outright (a go.mod asking for a
 	// toolchain that GOTOOLCHAIN=local does not have; a go.mod that does not parse; a go.mod
 	// that would have to be updated under -mod=readonly): whatever the loader does after the
 	// failure, it does with the hardened environment
-	{"check-file-refused-gomod", func(int) []string { return []string{"check", "--no-sandbox", "modx/main.go"} }, false},
+	{"check-file-refused-gomod", func(int) []string { return []string{"check", "--no-sandbox", "modx/main.go"} }, false, false},
 	{"scan-file-unparsable-gomod", func(int) []string {
 		return []string{"scan", "--no-sandbox", "--db", "sigs.json", "mody/main.go"}
-	}, false},
-	{"diff-refused-gomods", func(int) []string { return []string{"diff", "--no-sandbox", "modx/main.go", "modz/main.go"} }, false},
+	}, false, false},
+	{"diff-refused-gomods", func(int) []string { return []string{"diff", "--no-sandbox", "modx/main.go", "modz/main.go"} }, false, false},
+	{"scan-deps-dir-without-home", func(int) []string {
+		return []string{"scan", "--no-sandbox", "--deps", "--db", "sigs.json", "mod"}
+	}, true, true},
+	{"scan-deps-transitive-file-without-home", func(int) []string {
+		return []string{"scan", "--no-sandbox", "--deps", "--deps-depth", "transitive", "--db", "sigs.json", "mod/main.go"}
+	}, false, true},
+	{"check-file-without-home", func(int) []string { return []string{"check", "--no-sandbox", "mod/main.go"} }, false, true},
 	{"index", func(run int) []string {
 		return []string{"index", "--name", "T", "--db", fmt.Sprintf("idx%d.json", run), "mod/main.go"}
-	}, false},
+	}, false, false},
 }
 
 var bProfiles = []string{"exact-front", "exact-back", "case-only", "dups", "lookalike-inert", "random"}
@@ -626,7 +634,17 @@ func monitorB(res *evid.Result, only int) {
 		if only >= 0 && i != only {
 			continue
 		}
-		runs = append(runs, &bRun{run: i, cmd: c, profile: p, env: envB(i, p, base)})
+		env := envB(i, p, base)
+		if c.noHome {
+			var kept []string
+			for _, e := range env {
+				if !strings.HasPrefix(e, "HOME=") && !strings.HasPrefix(e, "XDG_CACHE_HOME=") {
+					kept = append(kept, e)
+				}
+			}
+			env = kept
+		}
+		runs = append(runs, &bRun{run: i, cmd: c, profile: p, env: env})
 	}
 	sem := make(chan struct{}, 4)
 	var wg sync.WaitGroup
